@@ -46,11 +46,17 @@ def schemas(tier):
     out.append(("dispatch", [("A", PAYLOADS[3][1], 2047, "x"), ("B", PAYLOADS[6][1], 2047, "xy"), ("C", PAYLOADS[1][1], 0, "x")]))
     out.append(("single", [("Only", PAYLOADS[6][1], 100, "can1")]))
     out.append(("single", [("O", PAYLOADS[2][1], 0, "z")]))
+    # the generator's own headers included in another order (fcp_can.h ahead of the CAN wrappers)
+    out.append(("order:protocols-first", [("Msg0", PAYLOADS[6][1], 1, "ab"), ("Msg1", PAYLOADS[3][1], 2, "abcd")]))
+    # bus names that do not fit the four bytes of the tag: both wrappers must give the same, truncated, tag and stay in their memory
+    out.append(("long-bus", [("Pt", PAYLOADS[2][1], 5, "powertrain"), ("Ch", PAYLOADS[1][1], 6, "chass")]))
+    out.append(("long-bus", [("Eu", PAYLOADS[2][1], 5, "\u20ac\u20ac"), ("Ab", PAYLOADS[1][1], 6, "abcd")]))
     return out
 
 
 def pad_bus(bus):
-    return [ord(c) for c in bus] + [0] * (4 - len(bus))
+    b = list(bus.encode("utf-8"))[:4]
+    return b + [0] * (4 - len(b))
 
 
 def run_schema(item):
@@ -76,7 +82,8 @@ def run_schema(item):
     inp0 = {"text": text}
     fcp = get_fcp_from_string(text, Logger({})).unwrap()
     files = cppbuild.generate_cpp(fcp)
-    exe, err = cppbuild.build(files)
+    # the long-bus schemas run under AddressSanitizer: writing past a 4-byte tag does not have to change any answer
+    exe, err = cppbuild.build(files, header_order=("protocols-first" if label.startswith("order:") else "default"), sanitize=(label == "long-bus"))
     S.count("executions")
     if exe is None:
         S.violation("C18.compile", "C18.compile/cc-error/%s" % cppbuild.first_error(err), inp0, expected="compiles", actual=err[-800:])
@@ -96,14 +103,17 @@ def run_schema(item):
                     index.append(("enc-over", which, name, v, {"sid": fid, "bus": pad_bus(bus), "dlc": len(ref), "data": list(ref)}, None))
                 continue
             frame = {"sid": fid, "bus": pad_bus(bus), "dlc": len(ref), "data": list(ref) + [0] * (8 - len(ref))}
+            long_bus = len(bus.encode("utf-8")) > 4
             for which in ("static", "dynamic"):
                 reqs.append({"op": "can_enc", "which": which, "name": name, "value": to_json_value(st, v, which == "dynamic")})
                 index.append(("enc", which, name, v, frame, None))
+                if long_bus:
+                    continue  # a tag cannot identify a bus it cannot hold: only the (truncated) tag itself is judged
                 reqs.append({"op": "can_dec", "which": which, "frame": frame})
                 index.append(("dec", which, name, v, frame, (name, v)))
         # non-matching frames, built from the encoding of the first value
         v0 = [x for x in shapes.struct_values(st, json_safe=True, limit=12) if len(refcodec.encode(env, name, x)) <= 8]
-        if not v0:
+        if not v0 or len(bus.encode("utf-8")) > 4:
             continue
         v0 = v0[-1]
         ref0 = refcodec.encode(env, name, v0)
